@@ -99,7 +99,8 @@ def run(ctx):
         n = 80 if quick else 1500
         scns = []
         for _ in range(n):
-            s = maptrace.gen_scenario(rng, max_levels=3, max_leaves=6, min_leaves=2,
+            # TLC integers are 32-bit: with > 255 iterations keep B^depth below 2^31
+            s = maptrace.gen_scenario(rng, max_levels=2 if _ % 20 == 7 else 3, max_leaves=6, min_leaves=2,
                                       ncell=rng.randint(3, 12))
             s['cfg']['B'] = rng.randint(1, 8 if quick else 25)
             s['cfg']['fnum'] = rng.randint(1, 10)
